@@ -45,6 +45,9 @@ func (w *walletFilePbkdf2) decrypt(password []byte) (err error) {
 	if w.Crypto.KDFParams.DKLen != derivedKeyLen {
 		return fmt.Errorf("invalid pbkdf2 keystore: derived key length %d != %d", w.Crypto.KDFParams.DKLen, derivedKeyLen)
 	}
+	if w.Crypto.KDFParams.C <= 0 {
+		return fmt.Errorf("invalid pbkdf2 keystore: iteration count %d must be positive", w.Crypto.KDFParams.C)
+	}
 
 	derivedKey := pbkdf2.Key(password, w.Crypto.KDFParams.Salt, w.Crypto.KDFParams.C, w.Crypto.KDFParams.DKLen, sha256.New)
 
